@@ -225,7 +225,9 @@ def e2e_part(ck: Check, rnd):
     from hiten.algorithms.dynamics.base import _propagate_dynsys
 
     systems = [("earth", "moon")] if ck.quick else [("earth", "moon"), ("sun", "earth"), ("sun", "jupiter")]
-    fams = [("halo", dict(amplitude_z=0.2, zenith="southern")), ("lyapunov", dict(amplitude_x=4e-3))] if ck.quick else [
+    fams = [("halo", dict(amplitude_z=0.2, zenith="southern")), ("lyapunov", dict(amplitude_x=4e-3)),
+            ("vertical", dict(initial_state=None)), ("halo-reordered", dict(amplitude_z=0.15, zenith="northern"))] if ck.quick else [
+        ("halo-reordered", dict(amplitude_z=0.15, zenith="northern")),
         ("halo", dict(amplitude_z=0.2, zenith="southern")), ("halo", dict(amplitude_z=0.1, zenith="northern")),
         ("lyapunov", dict(amplitude_x=4e-3)), ("vertical", dict(initial_state=None))]
     pts = [1] if ck.quick else [1, 2]
@@ -236,11 +238,26 @@ def e2e_part(ck: Check, rnd):
             L = system.get_libration_point(li)
             for fam, kw in fams:
                 if fam == "vertical":
-                    continue  # needs a hand-made seed; covered by halo/lyapunov families
-                for (tol_first, tol_second) in ([(1e-6, 1e-11)] if ck.quick else [(1e-6, 1e-11), (1e-10, 1e-5)]):
-                    key = f"{p}-{s}|L{li}|{fam}|{sorted(kw.items())}|tols={tol_first},{tol_second}"
+                    # seed from the centre manifold (as in examples/periodic_orbits.py); only where a CM exists cheaply
+                    if (p, s) != ("earth", "moon"):
+                        continue
                     try:
-                        orbit = L.create_orbit(fam, **kw)
+                        cmv = L.get_center_manifold(degree=4)
+                        cmv.compute()
+                        kw = dict(initial_state=np.asarray(cmv.to_synodic([0.0, 0.0], 0.6, "q3"), dtype=float))
+                    except Exception as ex:
+                        ck.notes.append(f"vertical seed from the centre manifold failed: {ex!r}")
+                        continue
+                for (tol_first, tol_second) in ([(1e-6, 1e-11)] if ck.quick else [(1e-6, 1e-11), (1e-10, 1e-5)]):
+                    key = f"{p}-{s}|L{li}|{fam}|{sorted((k, v) for k, v in kw.items() if k != 'initial_state')}|tols={tol_first},{tol_second}"
+                    try:
+                        orbit = L.create_orbit("halo" if fam == "halo-reordered" else fam, **kw)
+                        if fam == "halo-reordered":
+                            # a legitimate user configuration: control variables listed in descending slot order, finite differences
+                            from dataclasses import replace as _replace
+                            cfg0 = orbit.correction_config
+                            orbit.correction_config = _replace(cfg0, control_indices=tuple(reversed(tuple(cfg0.control_indices))), extra_jacobian=None,
+                                                               numerical=_replace(cfg0.numerical, finite_difference=True))
                     except Exception as ex:
                         ck.notes.append(f"seed construction failed for {key}: {ex!r}")
                         continue
@@ -266,7 +283,7 @@ def e2e_part(ck: Check, rnd):
                         if res.converged and not (resid < tol):
                             ck.violation("orbit.correct|reports-converged-with-residual-above-requested-tol",
                                          f"{key}: correct(tol={tol:g}) reports converged with residual {resid:.3e}",
-                                         {"part": "e2e", "system": [p, s], "L": li, "family": fam, "kw": kw,
+                                         {"part": "e2e", "system": [p, s], "L": li, "family": fam, "case": key,
                                           "tols": [tol_first, tol_second], "tol": tol, "residual": resid})
                         # contract 2: closure after one period, different integrator family; monodromy
                         # amplification bounds closure by ~|lambda_max| * tol: allow 1e5 * tol + 1e-8
@@ -274,7 +291,7 @@ def e2e_part(ck: Check, rnd):
                         if res.converged and resid < tol and not (clos <= bound):
                             ck.violation("orbit.correct|converged-orbit-does-not-close",
                                          f"{key}: converged at tol={tol:g} but |phi_T(x0)-x0| = {clos:.3e} > {bound:.1e}",
-                                         {"part": "e2e", "system": [p, s], "L": li, "family": fam, "kw": kw,
+                                         {"part": "e2e", "system": [p, s], "L": li, "family": fam, "case": key,
                                           "tols": [tol_first, tol_second], "tol": tol, "closure": clos})
     ck.part("e2e", runs=len(results), detail=[{"case": k, "tol": t, "status": st, "residual": r, "closure": c}
                                               for (k, t, st, r, c) in results][:40])
